@@ -1,1 +1,2 @@
+import Cpppo.Props.C12
 import Cpppo.Props.C19
